@@ -126,7 +126,7 @@ def _install_common(it, cache_checks):
     it.module_env(O).vars["_selector_fit_cache"] = cache
 
 
-@unit("proceed", ["C03", "C07"], [PROCEED, O + ":HandlerCollection.__init__", I + ":Interactor.__init__"], replay=_replay_file("c03_proceed.py"),
+@unit("proceed", ["C03", "C07", "C04"], [PROCEED, O + ":HandlerCollection.__init__", I + ":Interactor.__init__"], replay=_replay_file("c03_proceed.py"),
       assumed=["fits_selector is used through its contract (deterministic function of (fn, selector): False or a capture map)",
                "Interactor.register is used through its contract (one ghost event per call)",
                "accumulator.fork() of an opaque accumulator returns a fresh accumulator determined by the history"])
@@ -167,7 +167,7 @@ def u_proceed(c):
                                                                           it.to_val(v) == Val.ref(p_cm(i)) if v is not False else True), kind="auxiliary")
 
 
-@unit("proceed-bounded", ["C03", "C07"], [PROCEED], mode="bounded", bound="2 pending pairs, <=1 child each, all flag combinations",
+@unit("proceed-bounded", ["C03", "C07", "C04"], [PROCEED], mode="bounded", bound="2 pending pairs, <=1 child each, all flag combinations",
       fallback_for="proceed", max_paths=20000, replay=_replay_file("c03_proceed.py"))
 def u_proceed_b(c):
     """Bounded stand-in for 'proceed' with concrete flags (no solver involved): compared against the same meaning computed in Python."""
